@@ -516,9 +516,12 @@ package boltz
 //@   invariant 1: scanner.cursor != nil && scanner.rowCursor != nil && scanner.filter != nil && scanner.store != nil && 0 <= curPos[scanner.cursor] && curPos[scanner.cursor] <= curLen[scanner.cursor] && 0 <= scanner.offset && scanner.offset <= max(scanner.targetOffset, 0) && 0 <= scanner.collected
 
 // ValidIdsCursors: the ids of the wrapped cursor for which the (extended) store has data
+// entBkt(store, tx, id): the bucket of entity id (a stable name while the entity exists)
+//@ spec entBkt(store Int, tx Int, id Str) Int
 //@ func (Store).GetEntityBucket
 //@   pure
 //@   ensures (result != nil) == entPresent(self, str(id))
+//@   ensures[the-entity's-bucket] result != nil ==> result.ErrorHolderImpl != nil && result.Err == nil && result.Bucket != nil && ref(result.Bucket) == entBkt(self, tx, str(id))
 //@ typeinv ValidIdsCursors: self.wrapped != nil && self.store != nil && 0 <= curPos[self.wrapped] && curPos[self.wrapped] <= curLen[self.wrapped]
 //@ func (*ValidIdsCursors).IsValid
 //@   props C14 C15
